@@ -17,7 +17,7 @@ const CONTEXTS: &[&str] = &["global", "gate-body", "def-body", "if-body", "else-
 /// how the width is written
 const WFORMS: &[&str] = &[
     "none", "dec", "hex", "bin", "oct", "underscore", "const-int", "const-int64", "const-int128", "const-uint", "const-int32", "const-expr", "nonconst-ident", "undeclared-ident",
-    "const-float",
+    "const-float", "sibling-param",
 ];
 const WIDTHS: &[i128] = &[1, 2, 7, 8, 31, 32, 63, 64, 128, 65536, 1 << 31, (1 << 32) - 1, 1 << 32, (1 << 32) + 1, 1 << 33, 0, -1, -5, -(1 << 32)];
 
@@ -158,6 +158,16 @@ fn check_decl(spec: &str, obs: &mut Obs) {
             pre = format!("int nw = {w};\n");
             Some("nw".into())
         }
+        // `def ff2(int nw, T[nw] x)` next to a global `const int nw`: the designator means the parameter
+        // (the innermost declaration that precedes it), which is not a constant
+        "sibling-param" => {
+            if form != "def-param" {
+                obs.done(false);
+                return;
+            }
+            pre = format!("const int nw = {w};\n");
+            Some("nw".into())
+        }
         _ => Some("never_declared".into()),
     };
     // literal negative designators are prefix expressions (a recorded C03 panic site)
@@ -170,12 +180,20 @@ fn check_decl(spec: &str, obs: &mut Obs) {
         "const-decl" => (format!("const {ty} {name} = {};", if base == "bool" { "true" } else if base == "duration" || base == "stretch" { "1ns" } else if base == "bit" { "\"1\"" } else { "1" }), true),
         "io-input" => (format!("input {ty} {name};"), false),
         "io-output" => (format!("output {ty} {name};"), false),
+        "def-param" if wform == "sibling-param" => (format!("def ff2(int nw, {ty} {name}) {{ }}"), false),
         "def-param" => (format!("def ff2({ty} {name}) {{ }}"), false),
         "for-var" => (format!("for {ty} {name} in [0:1] {{ }}"), false),
         _ => (format!("int other = 1; {ty}(other);"), false),
     };
     // definitions, io and qubit declarations only make sense at the global scope
     let ctx = if matches!(form, "def-param" | "io-input" | "io-output") || base == "qubit" { "global" } else { ctx };
+    // one declaration in four below the global scope reuses the name of a gate defined globally:
+    // an inner scope may shadow any global name, the symbol under test is the later one
+    let inner_scope = ctx != "global" || matches!(form, "def-param" | "for-var");
+    if inner_scope && form != "cast-target" && mix(&[w as u64, form.len() as u64, ctx.len() as u64 * 7 + base.len() as u64, wform.len() as u64]) % 4 == 0 {
+        pre.push_str(&format!("gate {name} qshadow {{ }}\n"));
+        obs.class("shadows-a-global-gate-name");
+    }
     let src = format!("{pre}{}", wrap(ctx, &stmt));
     obs.fp.str(&src);
     let wclass = if wform == "none" {
@@ -215,9 +233,9 @@ fn check_decl(spec: &str, obs: &mut Obs) {
         }
     };
     let designator_diag = kinds.iter().any(|k| matches!(k.as_str(), "InvalidDesignatorError" | "ConstIntegerError" | "UndefVarError"));
-    let valid_width = wform == "none" || (w >= 1 && w <= u32::MAX as i128 && !matches!(wform, "nonconst-ident" | "undeclared-ident" | "const-float"));
+    let valid_width = wform == "none" || (w >= 1 && w <= u32::MAX as i128 && !matches!(wform, "nonconst-ident" | "undeclared-ident" | "const-float" | "sibling-param"));
     let _ = literal_form;
-    if !valid_width && wform != "none" && !(w == 0 && !matches!(wform, "nonconst-ident" | "undeclared-ident" | "const-float")) {
+    if !valid_width && wform != "none" && !(w == 0 && !matches!(wform, "nonconst-ident" | "undeclared-ident" | "const-float" | "sibling-param")) {
         // a width that does not fit, is negative or is not a constant integer must be diagnosed
         if !designator_diag {
             obs.violate(cell("invalid-width-not-diagnosed"), format!("{src:?}: diagnostics {kinds:?}, symbol type {ty_seen:?}"));
@@ -675,6 +693,6 @@ impl Property for C09 {
         }
     }
     fn mandatory_classes(&self, _tier: Tier) -> Vec<&'static str> {
-        vec!["valid-declaration", "invalid-width", "gate-signature", "def-signature"]
+        vec!["valid-declaration", "invalid-width", "gate-signature", "def-signature", "shadows-a-global-gate-name"]
     }
 }
